@@ -7,6 +7,7 @@ CONSTANTS
   Extras = FALSE
   Emit = FALSE
   SharedTokenCache = TRUE
+  StaleSnapshot = FALSE
 SPECIFICATION Spec
 PROPERTY Isolation
 CHECK_DEADLOCK FALSE
